@@ -1,5 +1,9 @@
 import LP.Props.GenTables
 import LP.Props.C13
+import LP.Props.C13Union
+import LP.Props.C13UnionNF
+import LP.Props.C13Contains
+import LP.Props.C13Int
 #print axioms LP.cmpUpper_sem
 #print axioms LP.cmpLower_sem
 #print axioms LP.VI.C13_cmp
@@ -12,3 +16,9 @@ import LP.Props.C13
 #print axioms LP.Gen.icmp_enum_order
 #print axioms LP.Gen.cmpLowerBounds_eq
 #print axioms LP.Gen.cmpUpperBounds_eq
+#print axioms LP.FSet.C13_union
+#print axioms LP.FSet.C13_union_nf
+#print axioms LP.FSet.gap_sep
+#print axioms LP.FSet.C13_contains
+#print axioms LP.FSet.C13_containsInt
+#print axioms LP.FSet.C13_set_containsInt
